@@ -3305,3 +3305,42 @@ func apiConcatAdvancesInPlace(rep *Report) {
 		}
 	}
 }
+
+// ---- C19: several goroutines unmarshalling strictly into one type with deprecated fields, the memo cold ----
+func apiDeprecationRace(rep *Report, rounds int) {
+	ts := []sb.Token{tokK(sb.KindObject), tokS("Old"), tokI(1), tokS("Keep"), tokI(7), tokS("Gone"), tokS("x"), tokK(sb.KindObjectEnd)}
+	strict := sb.Ctx{DisallowUnknownStructFields: true, Unmarshal: sb.UnmarshalValue}
+	old := runtime.GOMAXPROCS(4)
+	defer runtime.GOMAXPROCS(old)
+	bad := ""
+	for round := 0; round < rounds && bad == ""; round++ {
+		sb.VerifResetCaches()
+		const G = 4
+		var wg sync.WaitGroup
+		start := make(chan struct{})
+		errs := make([]error, G)
+		vals := make([]WithDeprecated, G)
+		for g := 0; g < G; g++ {
+			wg.Add(1)
+			go func(g int) {
+				defer wg.Done()
+				<-start
+				errs[g] = guard(func() error {
+					return sb.Copy(tokensFrom(ts), sb.UnmarshalValue(strict, reflect.ValueOf(&vals[g]), nil))
+				})
+			}(g)
+		}
+		close(start)
+		wg.Wait()
+		for g := range errs {
+			if errs[g] != nil || vals[g].Keep != 7 {
+				bad = fmt.Sprintf("round %d, goroutine %d: %v (Keep=%d); alone the stream is accepted (deprecated fields are skipped in strict mode)", round, g, errs[g], vals[g].Keep)
+			}
+		}
+	}
+	rep.Evaluations += rounds
+	rep.count("api:deprecation-race-rounds")
+	if bad != "" {
+		rep.violate("C19", "concurrent-result-differs", bad, fmt.Sprintf("%d rounds of 4 goroutines unmarshalling strictly into one type with deprecated fields, memo cold", rounds))
+	}
+}
